@@ -121,6 +121,19 @@ impl Header {
         self.fields
     }
 
+    /// The fields of a trailer section
+    pub fn into_trailers(self) -> Result<HeaderMap, HeaderError> {
+        //= https://www.rfc-editor.org/rfc/rfc9114#section-4.3
+        //# Pseudo-header fields MUST NOT appear in trailer
+        //# sections.
+        if self.pseudo.len() > 0 {
+            return Err(HeaderError::InvalidHeaderName(
+                "pseudo-header field in trailers".into(),
+            ));
+        }
+        Ok(self.fields)
+    }
+
     pub fn len(&self) -> usize {
         self.pseudo.len() + self.fields.len()
     }
